@@ -646,6 +646,9 @@ class Gen:
         if f == 'random':
             return ('call', f, [])
         if f == 'randint':
+            if rng.chance(0.08):      # the ends of the i32 range (the bounds are cast with `as i32`, which saturates)
+                lo, hi = rng.choice([('0', '2147483647'), ('1', '2147483520'), ('2147483520', '2147483520'), ('0', '16777216')])
+                return ('call', f, [('num', lo), ('num', hi)])
             lo = rng.range(-20, 20)
             return ('call', f, [('num', str(lo)) if lo >= 0 else ('neg', ('num', str(-lo))), ('num', str(lo + rng.range(0, 50)))])
         return ('num', '1')
